@@ -68,6 +68,22 @@ func (r *Report) NoteCase(coq string, nontrivial bool, input any) {
 	}
 }
 
+// NoteInput records an input the oracle was evaluated on but for which no correspondence case was
+// written: it counts, but takes no slot in the case-indexed list of inputs (entry i of that list must
+// describe case i of the cases files, so that a mismatch is reported with the right input).
+func (r *Report) NoteInput(key string, nontrivial bool, input any) {
+	r.Cases++
+	h := sha256.Sum256([]byte(key))
+	k := hex.EncodeToString(h[:8])
+	if nontrivial && !r.seen[k] {
+		r.seen[k] = true
+		r.Distinct++
+	}
+	if len(r.Samples) < 3 && nontrivial {
+		r.Samples = append(r.Samples, input)
+	}
+}
+
 func (r *Report) Fail(f Failure) {
 	if len(r.OracleFails) < 200 {
 		r.OracleFails = append(r.OracleFails, f)
@@ -124,7 +140,10 @@ func newXlateCases() (*CasesFile, caseAdder, caseAdder) {
 // the shard paths; case i of shard k is global case k*shardSize+i.
 const shardSize = 120
 
+var writtenCases int
+
 func (c *CasesFile) Write(base string) []string {
+	writtenCases += len(c.Items)
 	var paths []string
 	n := len(c.Items)
 	for k := 0; k == 0 || k*shardSize < n; k++ {
@@ -203,5 +222,10 @@ func main() {
 		die("%v", err)
 	}
 	rep := run(*seed, *n, *out, *tier)
+	if writtenCases != len(rep.CaseInputs) {
+		// entry i of case_inputs must describe case i: a mismatch would be reported with the wrong input
+		fmt.Fprintf(os.Stderr, "drive: %s: %d cases written but %d case inputs recorded\n", prop, writtenCases, len(rep.CaseInputs))
+		os.Exit(3)
+	}
 	rep.Write(*out)
 }
